@@ -591,6 +591,14 @@ class Exec(HeapMixin, ExprMixin, CallMixin, StmtMixin):
         """Havoc the declared locations of the current state (callee effect / loop)."""
         st0 = self.S.copy()
         alloc0 = self.arr('alloc')
+        if 'store:*' in mods:
+            for key, term in list(self.S.h.items()):
+                if key != 'alloc':
+                    self.S.h[key] = self.ctx.fresh('hvall', term.sort())
+            na = self.ctx.fresh('alloc', I)
+            self.fact(na >= alloc0)
+            self.S.h['alloc'] = na
+            return st0
         resolved = self.resolve_mods(mods, env, st0)
         anynew = any(d['new'] for d in resolved.values())
         for key, d in resolved.items():
@@ -619,6 +627,8 @@ class Exec(HeapMixin, ExprMixin, CallMixin, StmtMixin):
 
     def frame_check(self, base, mods, env, label, props, alloc0=None):
         """Everything outside `mods` (evaluated in `base`) is unchanged w.r.t. state `base`."""
+        if 'store:*' in mods:
+            return
         resolved = self.resolve_mods(mods, env, base)
         alloc0 = alloc0 if alloc0 is not None else self.arr('alloc', base)
         for key, term in list(self.S.h.items()):
@@ -737,13 +747,20 @@ class Exec(HeapMixin, ExprMixin, CallMixin, StmtMixin):
         fr = self.frame
         k = fr.call_ord if fr is not None else 0
         callee = fi.qualname
-        self.site_check([v for kk, v in list(env.items())[1:2]] or list(env.values())[:1], phase='pre')
+        _names = list(env)
+        _first = _names[1:2] if _names and _names[0] in ('self', 'cls') else _names[:1]
+        self.site_check([env[n_] for n_ in _first], phase='pre')
         self.cur_spec_module_push(c)
         try:
             # 1. preconditions (and, for abstract callees, call-site monitors)
+            assumed_pre = self.cur is not None and fi.key in self.cur.assume_callee_pre and self.depth == 0
             for pred in c.requires:
                 for label, term in self.spec_terms(pred, env):
-                    self.oblige(f'call-pre:{callee}:{label}', term, kind='call-pre')
+                    if not assumed_pre:
+                        self.oblige(f'call-pre:{callee}:{label}', term, kind='call-pre')
+                    else:
+                        self.used_assumption(f'precondition {label} of {callee} assumed at its call site in '
+                                             f'{self.cur_fi.qualname} (user-built object)')
                     self.assume(term)
             menv = dict(env)
             if fr is not None:
@@ -767,10 +784,6 @@ class Exec(HeapMixin, ExprMixin, CallMixin, StmtMixin):
             env2['old'] = old
             if choice == 0:
                 self.havoc(c.modifies, env)
-                if c.effects is not None:
-                    from . import hooks as _hooks
-                    for eff in ([c.effects] if isinstance(c.effects, str) else c.effects):
-                        _hooks.EFFECTS[eff](self, env2, pre)
                 result = VNone()
                 if c.returns is not None:
                     self.ctx.n += 1
@@ -783,6 +796,10 @@ class Exec(HeapMixin, ExprMixin, CallMixin, StmtMixin):
                     else:
                         result = self.sym_value(rname, c.returns)
                 env2['result'] = result
+                if c.effects is not None:
+                    from . import hooks as _hooks
+                    for eff in ([c.effects] if isinstance(c.effects, str) else c.effects):
+                        _hooks.EFFECTS[eff](self, env2, pre)
                 sink = self.fact if (c.pure and self.qvars) else self.assume
                 for exc, rd in excs:
                     mustp = rd.get('must') or rd.get('when')
@@ -1045,6 +1062,10 @@ def _h_desc_writes_ok(eng):
                                               z3.Or(k == eng.ctx.strid('model'), k == eng.ctx.strid('agent_index')))))
 
 
+def _h_rng_seed(eng, r):
+    return VRef(z3.Function('rng_seed', I, I)(r.term), ty.ANY)
+
+
 def _h_typeof(eng, x):
     return eng.type_of_value(x)
 
@@ -1061,6 +1082,6 @@ SPEC_HELPERS = dict(pos_in=_h_pos_in, implies=_h_implies, iff=_h_iff, index_of=_
                     is_fresh=_h_is_fresh, same_elems=_h_same_elems, same_dict=_h_same_dict, typeof=_h_typeof, same=_h_same,
                     same_obj=_h_same, now=_h_now, was=_h_was, origin=_h_origin, by_lemma=_h_by_lemma, as_list=_h_as_list, is_ndarray=_h_is_ndarray,
                     is_list=_h_is_list, is_str_value=_h_is_str_value, iterable=_h_iterable, items_of=_h_items_of,
-                    rec_has=_h_rec_has, rec_get=_h_rec_get, as_dict=_h_as_dict, file_log=_h_file_log, desc_writes_ok=_h_desc_writes_ok, agg_min=_agg('min'), agg_max=_agg('max'),
+                    rec_has=_h_rec_has, rec_get=_h_rec_get, as_dict=_h_as_dict, file_log=_h_file_log, desc_writes_ok=_h_desc_writes_ok, rng_seed=_h_rng_seed, agg_min=_agg('min'), agg_max=_agg('max'),
                     agg_mean=_agg('mean'), agg_sum=_agg('sum'), agg_variance=_agg('variance'),
                     is_none=_h_is_none)
